@@ -28,6 +28,7 @@ struct Ctx {
 
 #[derive(Clone, Hash)]
 struct Model {
+    advances: u8,
     owner: usize,
     window: bool,
     /// ledger-state hash observed with the window closed, per owner: upgrade + migrate must
@@ -60,6 +61,7 @@ enum Act {
     /// version: 0 = same as current, 1 = the version the new code reports, 2 = a wrong one;
     /// data: 0 = well-typed, 1 = ill-typed, 2 = empty argument list
     Upgrader { version: u8, cover: Cover, data: u8, real_code: bool },
+    Advance(u32),
 }
 
 struct C15;
@@ -121,12 +123,15 @@ impl Scenario for C15 {
         };
         (
             Ctx { w, target, upgrader, p, version, dummy_hash, is_dummy: c == 5 },
-            Model { owner: 0, window: false, closed_hash: [None, None] },
+            Model { advances: 0, owner: 0, window: false, closed_hash: [None, None] },
         )
     }
 
-    fn actions(&self, ctx: &Ctx, _m: &Model) -> Vec<Act> {
+    fn actions(&self, ctx: &Ctx, m: &Model) -> Vec<Act> {
         let mut v = vec![];
+        if m.advances < 1 {
+            v.push(Act::Advance(20));
+        }
         for by in [Who::Owner, Who::Other, Who::Stranger, Who::Nobody] {
             v.push(Act::Upgrade { known_hash: true, by });
             v.push(Act::Migrate { well_typed: true, by });
@@ -155,6 +160,15 @@ impl Scenario for C15 {
         let h0 = w.state_hash();
         let v0 = self.version_of(ctx);
         match a {
+            Act::Advance(n) => {
+                out.kind = "advance";
+                out.accepted = true;
+                w.set_seq(w.seq() + n);
+                w.set_time(w.now() + 5 * *n as u64);
+                m.advances += 1;
+                // the cycle hash includes the ledger sequence: forget it across time
+                m.closed_hash = [None, None];
+            }
             Act::Upgrade { known_hash, by } => {
                 out.kind = "upgrade";
                 let hash = if *known_hash { sha256(b"") } else { [9u8; 32] };
